@@ -93,7 +93,7 @@ fn check_append_refused(ctx: &mut Ctx, sut: &mut Sut) -> Result<(), Fail> {
 fn mro_history(ctx: &mut Ctx, ops: &[Op], key_seed: u64) -> Result<(), (usize, Fail)> {
     let world = World::new();
     let mut sut = Sut::create(key_seed, world.clone(), CacheMode::None).map_err(|f| (0, f))?;
-    sut.cmp_mask = CMP_WRITABLE | CMP_HAS;
+    sut.cmp_mask = CMP_ALL;
     // every second reopen is a plain build() on the existing storage: the stored public key and
     // writability must be recovered there too
     sut.plain_reopen_every = 2;
@@ -214,7 +214,7 @@ fn crash_inside_mro(ctx: &mut Ctx, ops: &[Op], key_seed: u64, r: &mut Rng, tear:
     // of the call): the torn header slot must lose against the other one, with all data
     let o = CrashOpts {
         mode: if tear { Mode::Tear { random_cuts: 2 } } else { Mode::Crash },
-        mask: CMP_WRITABLE | CMP_HAS,
+        mask: CMP_ALL,
         get_cap: 64,
         only: None,
         only_kind: Some("make_read_only"),
@@ -269,7 +269,7 @@ fn replica_case(ctx: &mut Ctx, r: &mut Rng) -> Result<(), Fail> {
         key: w.key.clone(),
         cache: CacheMode::None,
         get_cap: 64,
-        cmp_mask: CMP_WRITABLE | CMP_HAS,
+        cmp_mask: CMP_ALL,
         steps: 0,
         plain_reopen_every: 0,
         reopens: 0,
